@@ -1,0 +1,83 @@
+//go:build verif
+
+// Contracts for govc (see /verif/DESIGN.md). Comment-only file: no executable code.
+
+package mta
+
+// ---------------------------------------------------------------------------
+// C27: the Merkle accumulator works for every length
+// ---------------------------------------------------------------------------
+
+//@ property C27
+// Tree nodes are abstracted: their methods only touch node-internal caches.
+//@ func (n Node) Hash() (h)
+//@   iface
+//@   trusted
+//@   modifies all(branchNode.state), all(branchNode.hashValue), all(branchNode.serialized), all(dataNode.state), all(dataNode.hashValue)
+//@ func (n Node) Flush() (err)
+//@   iface
+//@   trusted
+//@   modifies all(branchNode.state), all(branchNode.hashValue), all(branchNode.serialized), all(dataNode.state), all(dataNode.hashValue)
+// witness_found: ghost flag set when the lookup was delegated to the tree that holds the item
+//@ smt all (declare-ghost witness_found Bool)
+//@ func (n Node) WitnessFor(depth, idx, w) (node, wout, err)
+//@   iface
+//@   trusted
+//@   modifies all(branchNode.state), all(branchNode.hashValue), all(branchNode.serialized), all(dataNode.state), all(dataNode.hashValue), all(branchNode.left), all(branchNode.right)
+//@   ensures node != nil
+//@   opt ghost:witness_found true
+
+// Binary-counter representation: slot i holds a complete tree of 2^i items exactly when bit i of
+// length is set; there are no bits beyond the slots.
+//@ spec lowMask(k) = (1 << uint64(k)) - 1
+//@ spec accShape(a) = a != nil && a.length >= 0 && len(a.roots) < 62 && (a.length >> uint64(len(a.roots))) == 0
+//@ spec accSlots(a, from) = forall i int :: from <= i && i < len(a.roots) ==> ((a.roots[i] != nil) == (((a.length >> uint64(i)) & 1) == 1))
+//@ spec accInv(a) = accShape(a) && accSlots(a, 0)
+// while a carry propagates (addNode at height h): slots below h are empty but still counted in length
+//@ spec accCarry(a, h) = accShape(a) && 0 <= h && h <= len(a.roots) && accSlots(a, h) && (forall i int :: 0 <= i && i < h ==> a.roots[i] == nil) && (a.length & int64(lowMask(h))) == int64(lowMask(h))
+
+//@ func (a *Accumulator) Len() (r)
+//@   arith bv
+//@   pure
+//@   requires a != nil
+//@   ensures r == a.length
+
+//@ func (a *Accumulator) addNode(h, n, w) (wout)
+//@   arith bv
+//@   opt nomerge
+//@   requires accShape(a) && 0 <= h && h <= len(a.roots) && n != nil && a.length < 0x1000000000000000
+//@   requires accSlots(a, h)
+//@   requires forall i int :: 0 <= i && i < h ==> a.roots[i] == nil
+//@   requires (a.length & int64(lowMask(h))) == int64(lowMask(h))
+//@   modifies a.roots, a.roots[*], a.length, all(branchNode.state), all(branchNode.hashValue), all(branchNode.serialized), all(dataNode.state), all(dataNode.hashValue), w[*]
+//@   ensures [length] a.length == old(a.length) + 1
+//@   ensures [shape] accShape(a)
+//@   ensures [slots] accSlots(a, 0)
+
+//@ func (a *Accumulator) AddNode(n) (w)
+//@   arith bv
+//@   requires accInv(a) && n != nil && a.length < 0x1000000000000000
+//@   modifies a.roots, a.roots[*], a.length, all(branchNode.state), all(branchNode.hashValue), all(branchNode.serialized), all(dataNode.state), all(dataNode.hashValue)
+//@   ensures [counter] accInv(a) && a.length == old(a.length) + 1
+
+//@ func (a *Accumulator) WitnessFor(idx) (w, err)
+//@   arith bv
+//@   requires accInv(a) && !ghost(witness_found)
+//@   modifies *
+//@   ensures [found] 0 <= idx && idx < old(a.length) ==> ghost(witness_found)
+//@   ensures [absent] idx >= old(a.length) ==> err != nil && !ghost(witness_found)
+//@   loop 0: invariant 0 <= offset && offset <= len(a.roots) && accInv(a) && a.length == old(a.length) && !ghost(witness_found)
+//@   loop 0: invariant old(idx) >= 0 && old(idx) < old(a.length) ==> 0 <= idx && idx < (a.length & int64(lowMask(offset)))
+
+//@ func (a *Accumulator) Flush() (err)
+//@   arith bv
+//@   requires accInv(a) && a.Bucket != nil
+//@   modifies *
+//@   loop 0: invariant -1 <= rangeindex && rangeindex < len(a.roots) && len(roots) == len(a.roots)
+
+//@ func (a *Accumulator) Verify(ws, h) (err)
+//@   arith bv
+//@   requires a != nil
+//@   modifies *
+//@   ensures [accepted] err == nil ==> len(ws) < len(a.roots) && a.roots[len(ws)] != nil
+//@   loop 0: invariant -1 <= rangeindex && rangeindex < len(ws) && height == rangeindex + 1 && len(buf) == 64 && buf != nil
